@@ -167,6 +167,13 @@ func gate(tier string) map[string]int {
 		"server_peers_released":             6,
 		"server_handlers_released":          6,
 		"server_serving_after_attack":       6,
+		// devp2p disconnect reasons (in and out of the reason table, odd payloads)
+		"disc_reason_victim_started":                     6,
+		"disc_reason_lattice_sent":                       300,
+		"disc_established_disc_reason_out_of_table":      40,
+		"disc_instead_of_hello_disc_reason_out_of_table": 40,
+		"disc_established_disc_odd_payload":              60,
+		"disc_reason_prehello_presented":                 400,
 	}
 }
 
